@@ -21,6 +21,7 @@ import (
 	"strconv"
 	"strings"
 	"sync"
+	"time"
 	"unsafe"
 
 	"github.com/whoisnian/glb/httpd"
@@ -119,10 +120,17 @@ func storeHandler(id int) httpd.HandlerFunc {
 		if rec.code != 0 {
 			s.W.WriteHeader(rec.code)
 		}
-		if rec.sub != 0 && rec.mux != nil {
+		if rec.sub == 3 && rec.mux != nil {
+			// lazy registration: the handler adds a route to the Mux it is being served by
+			storeLazySeq++
+			func() {
+				defer func() { recover() }() // a refused registration panics by contract: not this request's business
+				rec.mux.Handle("/lazy/"+strconv.Itoa(storeLazySeq)+"/:v", "GET", storeHandler(-3))
+			}()
+		} else if rec.sub != 0 && rec.mux != nil {
 			before := storeProbe(s, id, rec.names)
 			inner := &storeRec{names: rec.names}
-			req := (&http.Request{Method: "GET", URL: &url.URL{Path: "/sub/" + strconv.Itoa(rec.sub) + "/x"}, Header: http.Header{}}).
+			req := (&http.Request{Method: "GET", URL: &url.URL{Path: Pick2(rec.sub, "/u/sub/x", "/a/sub")}, Header: http.Header{}}).
 				WithContext(context.WithValue(context.Background(), storeCtxKey{}, inner))
 			var w http.ResponseWriter = s.W
 			if rec.sub == 2 {
@@ -217,6 +225,14 @@ type storeReq struct {
 }
 
 var storeReqSeq int
+var storeLazySeq int
+
+func Pick2(k int, a, b string) string {
+	if k%2 == 1 {
+		return a
+	}
+	return b
+}
 
 // do serves one request; the panic of a panicking handler is recovered here.
 func (m *storeMux) do(q storeReq, names []string) (rec *storeRec, panicked string) {
@@ -231,6 +247,26 @@ func (m *storeMux) do(q storeReq, names []string) (rec *storeRec, panicked strin
 		req.Header.Set("X-Client-IP", "203.0.113.9")
 		req.Header.Set("X-Forwarded-For", "198.51.100.1, 10.0.0.1")
 		req.Header.Set("Cookie", "sid=abc")
+	}
+	if q.Sub == 3 {
+		// a request that may hang (a handler calling back into the Mux): served under a watchdog
+		done := make(chan string, 1)
+		go func() {
+			defer func() {
+				if r := recover(); r != nil {
+					done <- fmt.Sprint(r)
+					return
+				}
+				done <- ""
+			}()
+			m.mux.ServeHTTP(httptest.NewRecorder(), req)
+		}()
+		select {
+		case p := <-done:
+			return rec, p
+		case <-time.After(10 * time.Second):
+			return rec, "request-does-not-return: ServeHTTP has not returned after 10 s (the handler registers a route on its own Mux)"
+		}
 	}
 	defer func() {
 		if r := recover(); r != nil {
@@ -287,6 +323,10 @@ func storeLine(rec *storeRec, panicked string, withID bool) string {
 func storeCheck(s *Stream, m *storeMux, q storeReq, rec *storeRec, panicked string, prefix *string, ids map[string]bool, mu *sync.Mutex, replay func() any) {
 	if rec.handle == nil || rec.relay == nil || rec.calls != 1 {
 		s.Violate("handler-count", fmt.Sprintf("%+v: relay ran %v, handlers ran %d, panic %q", q, rec.relay != nil, rec.calls, panicked), replay())
+		return
+	}
+	if strings.HasPrefix(panicked, "request-does-not-return") {
+		s.Violate("request-does-not-return", fmt.Sprintf("%+v: %s", q, panicked), replay())
 		return
 	}
 	if (panicked != "") != q.Panics {
@@ -650,6 +690,22 @@ func runStore(cfg Cfg) {
 		m := storeNewMux()
 		prefix, ids := "", map[string]bool{}
 		var mu sync.Mutex
+		var hist []storeReq
+		if h%3 == 0 {
+			// the table starts without any parameter route; Stores are created (nested, so several at once),
+			// pooled, and only then the routes with parameters are registered
+			m.register(routerReg{"/s", "GET"})
+			m.register(routerReg{"/static/a", "*"})
+			for i := 0; i < 4; i++ {
+				q := storeReq{Path: Pick(r, []string{"/s", "/static/a", "/none"}), Method: "GET", Sub: 1 + i%2}
+				hist = append(hist, q)
+				rec, p := m.do(q, append([]string{}, m.names...))
+				storeCheck(s, m, q, rec, p, &prefix, ids, &mu, func() any {
+					return map[string]any{"mode": "nested requests on a table without parameters", "table": m.regs, "request": q}
+				})
+			}
+			s.Count("table.static-first")
+		}
 		for _, reg := range Pick(r, storeDirected) {
 			m.register(reg)
 		}
@@ -657,11 +713,10 @@ func runStore(cfg Cfg) {
 			m.register(storeRandReg(r, 1))
 		}
 		names := append([]string{}, m.names...)
-		var hist []storeReq
 		for i, n := 0, 3+r.Intn(20); i < n; i++ {
 			q := storeRandReq(r, m)
 			q.Panics = false
-			q.Sub, q.Lazy = Pick(r, []int{0, 0, 1, 2}), r.Chance(30)
+			q.Sub, q.Lazy = Pick(r, []int{0, 0, 1, 2, 3}), r.Chance(30)
 			if i%5 == 3 {
 				m.installNoRoute() // the no-route handler is replaced while Stores that served earlier requests are pooled
 			}
@@ -673,8 +728,11 @@ func runStore(cfg Cfg) {
 			})
 			s.Evaluations++
 			s.Count(fmt.Sprintf("request.nested-%d", q.Sub))
+			if strings.HasPrefix(p, "request-does-not-return") {
+				return // the Mux is wedged: every later request would only wait for the watchdog again
+			}
 		}
-		const G = 4
+		const G = 12
 		var wg sync.WaitGroup
 		plans := make([][]storeReq, G)
 		type nres struct {
@@ -683,7 +741,7 @@ func runStore(cfg Cfg) {
 		}
 		results := make([][]nres, G)
 		for g := range plans {
-			for i := 0; i < 12; i++ {
+			for i := 0; i < 30; i++ {
 				q := storeRandReq(r, m)
 				q.Panics = false
 				q.Sub, q.Lazy = Pick(r, []int{0, 2, 2, 1}), r.Chance(30)
@@ -705,7 +763,7 @@ func runStore(cfg Cfg) {
 			for i, q := range plans[g] {
 				q := q
 				storeCheck(s, m, q, results[g][i].rec, results[g][i].p, &prefix, ids, &mu, func() any {
-					return map[string]any{"mode": "nested requests, 4 goroutines after a sequential warm-up", "table": m.regs, "warm_up": hist, "request": q}
+					return map[string]any{"mode": "nested requests, 12 goroutines after a sequential warm-up", "table": m.regs, "warm_up": hist, "request": q}
 				})
 				s.Evaluations++
 				s.Count("request.nested-concurrent")
@@ -754,7 +812,7 @@ func runStore(cfg Cfg) {
 	}
 	s.Notes = append(s.Notes,
 		"mode 4 (no model side): one Mux serving 3 000 (thorough: 60 000) requests: ids unique, one prefix",
-		"mode 3 (no model side): handlers serving a nested request through the same Mux - re-dispatch with the outer request's own s.W, or a sub-request with a private recorder -, ids first asked for inside the handler (through a by-value copy of the Store and from three goroutines at once), then 4 goroutines of such requests; oracle: nothing the outer request observes changes while it is served, the nested request has its own id and starts with status 0, every observation equals that on a fresh Mux",
+		"mode 3 (no model side): handlers serving a nested request through the same Mux - re-dispatch with the outer request's own s.W, or a sub-request with a private recorder -, ids first asked for inside the handler (through a by-value copy of the Store and from three goroutines at once), then 12 goroutines of such requests; oracle: nothing the outer request observes changes while it is served, the nested request has its own id and starts with status 0, every observation equals that on a fresh Mux",
 		"mode 1: one goroutine, GC off (debug.SetGCPercent(-1)); reuse of pooled Stores is measured by pointer identity (distribution: request.on-reused-store / request.on-new-store), never assumed by the oracle; `dropall` = two runtime.GC() calls, after which sync.Pool has forgotten everything",
 		"mode 2: 8 goroutines x 3 bursts on one Mux, registrations between the bursts; `reqx` lines are compared with the model without the id (the order in which the goroutines draw ids is not determined), ids are checked for uniqueness and constant prefix by the direct oracle",
 		"the `req` operation carries an arbitrary pool choice for the model (0 = new Store, k = the k-th pooled Store); the implementation's own choice is not observable — the model's answer must not, and by theorem request_isolated does not, depend on it",
